@@ -63,6 +63,9 @@ def ownRc (s : State) (o : Nat) : Nat := match s.owners[o]? with | some ow => ow
 /-- number of pending decrements of region `r` in a work list -/
 def countIn (r : Nat) (p : List Nat) : Nat := sumMap (fun x => if x = r then 1 else 0) p
 
+/-- bytes region `reg` has reserved in pool `p` -/
+def Region.claimIn (p : Nat) (reg : Region) : Nat := if reg.claimPool = p then reg.claimed.getD 0 else 0
+
 structure RegionOk (reg : Region) : Prop where
   rel_iff : reg.released = true ↔ reg.rc = 0
   rel_count : reg.relCount = if reg.released then 1 else 0
@@ -80,7 +83,7 @@ structure InvP (s : State) (p : List Nat) : Prop where
   own_eq : ∀ o, ownRc s o = ownerRefs s o
   reg_ok : ∀ (r : Nat) reg, s.regions[r]? = some reg → RegionOk reg
   own_ok : ∀ (o : Nat) ow, s.owners[o]? = some ow → OwnerOk ow
-  pool_eq : s.pool = sumMap (fun reg => reg.claimed.getD 0) s.regions
+  pool_eq : ∀ p, s.pool p = sumMap (Region.claimIn p) s.regions
   mut_excl : ∀ (i : Nat) r l, s.slots[i]? = some (.mut r l) → rcOf s r = 1
 
 abbrev Inv (s : State) : Prop := InvP s []
@@ -257,9 +260,9 @@ theorem ownedBy_set {s s' : State} {r : Nat} {reg reg' : Region} (hr : s'.region
   simp only [hr]; exact sumMap_set _ _ _ _ _ h
 
 theorem claimSum_set {s s' : State} {r : Nat} {reg reg' : Region} (hr : s'.regions = s.regions.set r reg')
-    (h : s.regions[r]? = some reg) :
-    sumMap (fun reg => reg.claimed.getD 0) s'.regions + reg.claimed.getD 0 =
-      sumMap (fun reg => reg.claimed.getD 0) s.regions + reg'.claimed.getD 0 := by
+    (h : s.regions[r]? = some reg) (p : Nat) :
+    sumMap (Region.claimIn p) s'.regions + reg.claimIn p =
+      sumMap (Region.claimIn p) s.regions + reg'.claimIn p := by
   simp only [hr]; exact sumMap_set _ _ _ _ _ h
 
 theorem heldRefs_set {s s' : State} {o : Nat} {ow ow' : Owner} (hr : s'.owners = s.owners.set o ow')
@@ -299,7 +302,7 @@ theorem decOne_spec (s : State) (r : Nat) (rest : List Nat) (h : InvP s (r :: re
     simp only
     rw [rcOf_some hr] at hrc
     have hok := h.reg_ok r reg hr
-    obtain ⟨bytes, cap, kind, rc, released, relCount, claimed⟩ := reg
+    obtain ⟨bytes, cap, kind, rc, released, relCount, claimed, claimPool⟩ := reg
     simp only at hrc ⊢
     by_cases h1 : rc ≤ 1
     · simp only [h1, if_true]
@@ -310,7 +313,7 @@ theorem decOne_spec (s : State) (r : Nat) (rest : List Nat) (h : InvP s (r :: re
         | false => rfl
         | true => have := hok.rel_iff.mp (by simpa using hx); simp at this; omega
       -- the state after the region itself is released
-      let s1 : State := { s with regions := s.regions.set r { bytes, cap, kind, rc := 0, released := true, relCount := relCount + 1, claimed := none }, pool := s.pool - claimed.getD 0 }
+      let s1 : State := { s with regions := s.regions.set r { bytes, cap, kind, rc := 0, released := true, relCount := relCount + 1, claimed := none, claimPool }, pool := poolAdjust s.pool claimPool (claimed.getD 0) 0 }
       have rc1 : ∀ r', rcOf s1 r' = referenced s1 r' + countIn r' rest := by
         intro r'
         rw [rcOf_set (s' := s1) rfl hr r']
@@ -327,13 +330,18 @@ theorem decOne_spec (s : State) (r : Nat) (rest : List Nat) (h : InvP s (r :: re
           simp [hnr] at hc
           exact ⟨by simp, by simp [hc], by simp, by simp⟩
         · exact h.reg_ok r' reg' e
-      have pool1 : s1.pool = sumMap (fun reg => reg.claimed.getD 0) s1.regions := by
-        have := claimSum_set (s' := s1) rfl hr
-        have hp := h.pool_eq
-        have hge := sumMap_ge (fun reg => reg.claimed.getD 0) s.regions r _ hr
-        simp at this hge
-        show s.pool - claimed.getD 0 = _
-        omega
+      have pool1 : ∀ p, s1.pool p = sumMap (Region.claimIn p) s1.regions := by
+        intro p
+        have := claimSum_set (s' := s1) rfl hr p
+        have hp := h.pool_eq p
+        have hge := sumMap_ge (Region.claimIn p) s.regions r _ hr
+        simp only [Region.claimIn] at this hge
+        show poolAdjust s.pool claimPool (claimed.getD 0) 0 p = _
+        unfold poolAdjust
+        by_cases e : p = claimPool
+        · subst e; simp at this hge ⊢; omega
+        · have e2 : ¬ (claimPool = p) := fun x => e x.symm
+          simp [e, e2] at this hge ⊢; omega
       have mut1 : ∀ (i : Nat) r' l, s1.slots[i]? = some (.mut r' l) → rcOf s1 r' = 1 := by
         intro i r' l hh
         have hm := h.mut_excl i r' l hh
@@ -383,7 +391,7 @@ theorem decOne_spec (s : State) (r : Nat) (rest : List Nat) (h : InvP s (r :: re
           exact e ▸ this
         · exact a7
     · simp only [h1, if_false, List.nil_append]
-      let s1 : State := setRegion s r { bytes, cap, kind, rc := rc - 1, released, relCount, claimed }
+      let s1 : State := setRegion s r { bytes, cap, kind, rc := rc - 1, released, relCount, claimed, claimPool }
       have hnr : released = false := by
         cases hx : released with
         | false => rfl
@@ -409,10 +417,11 @@ theorem decOne_spec (s : State) (r : Nat) (rest : List Nat) (h : InvP s (r :: re
         · subst e
           exact ⟨by simp [hnr]; omega, by simpa using hok.rel_count, by simp [hnr], by simpa using hok.claim_cap⟩
         · exact h.reg_ok r' reg' e
-      · have := claimSum_set (s' := s1) rfl hr
-        have hp := h.pool_eq
-        simp at this
-        show s.pool = sumMap (fun reg => reg.claimed.getD 0) s1.regions
+      · intro p
+        have := claimSum_set (s' := s1) rfl hr p
+        have hp := h.pool_eq p
+        simp only [Region.claimIn] at this
+        show s.pool p = sumMap (Region.claimIn p) s1.regions
         omega
       · intro i r' l hh
         have hm := h.mut_excl i r' l hh
